@@ -117,7 +117,7 @@ fn hostile_req_run(cx: &mut Ctx, wire: &[u8], bufsize: usize, mc: usize, style: 
     let m = model::preamble(wire, 0, mc);
     let exp_out = model::concat_replies(&m.replies);
     let mut pos = 0;
-    let opts = DriveOpts { style, cap: wire.len(), check_nonempty: true, replies: Some(exp_out.clone()) };
+    let opts = DriveOpts { style, cap: wire.len(), check_nonempty: true, replies: Some(exp_out.clone()), done_by: None };
     let d = drive_request(cx, &mut parser, wire, &mut pos, &opts, "c03_output")?;
     // conversions at this point on clones
     let c1 = parser.clone();
